@@ -79,6 +79,10 @@ class HBFont:
         if f is None:
             funcs = hb.FontFuncs.create()
             funcs.set_nominal_glyph_func(lambda font, cp, data: cp)
+            # a fresh FontFuncs has nil advance callbacks: delegate to the real font
+            parent = self.font
+            funcs.set_glyph_h_advance_func(lambda font, gid, data: parent.get_glyph_h_advance(gid))
+            funcs.set_glyph_v_advance_func(lambda font, gid, data: parent.get_glyph_v_advance(gid))
             f = hb.Font(self.face)
             f.scale = (self.upem, self.upem)
             f.funcs = funcs
